@@ -148,15 +148,22 @@ Proof.
   repeat (apply Forall_cons; [first [exact I | (cbn; repeat split; first [reflexivity | (exists 30; reflexivity) | (eexists; reflexivity)])]|]). apply Forall_nil.
 Qed.
 
-(* the hand-over clause is refuted in the newcomer window (db.go:2163-2176: waited := false when locked = 0):
-   waiters queued, key momentarily free, a newcomer NOT above the waiting maximum is admitted.
-   Replayed on the real server by checks/C19.py (signature monitor:priority:handover-barging). *)
-Theorem C19_prioritylock_handover_refuted_newcomer_window : exists mgr_waited higher_than_waiting,
-  mgr_waited = true /\ higher_than_waiting = false /\
-  newcomer_admitted 0 mgr_waited false (prio_flag_of (prioritylock_timeout 5)) higher_than_waiting prioritylock_count prioritylock_count = true.
-Proof. exact priority_newcomer_barges. Qed.
-Goal True. idtac "ASSUMPTIONS-OF C19_prioritylock_handover_refuted_newcomer_window". Abort.
-Print Assumptions C19_prioritylock_handover_refuted_newcomer_window.
+(* the hand-over clause in the newcomer window (db.go:2163-2176: waited := false when locked = 0): waiters queued, key
+   momentarily free, a newcomer NOT above the waiting maximum.  With the source as it is (switch false) it is admitted —
+   the clause is refuted, replayed on the real server by checks/C19.py (signature monitor:priority:handover-barging);
+   if LockDB.Lock consults the queue head (switch true) it is not. *)
+Theorem C19_prioritylock_handover_newcomer_window :
+  (lock_newcomer_checks_wait_queue = false ->
+     newcomer_admitted 0 true false (prio_flag_of (prioritylock_timeout 5)) false true prioritylock_count prioritylock_count = true)
+  /\
+  (lock_newcomer_checks_wait_queue = true ->
+     forall pf cur c, newcomer_admitted 0 true false pf false true cur c = false).
+Proof. exact priority_newcomer_window. Qed.
+Goal True. idtac "ASSUMPTIONS-OF C19_prioritylock_handover_newcomer_window". Abort.
+Print Assumptions C19_prioritylock_handover_newcomer_window.
+Example C19_prioritylock_handover_switch_is_a_boolean :
+  lock_newcomer_checks_wait_queue = false \/ lock_newcomer_checks_wait_queue = true.
+Proof. destruct lock_newcomer_checks_wait_queue; auto. Qed.
 
 (* the waiters' priority ring (server/lock.go LockManagerPriorityRingQueue), every push/pop sequence: what the wake-up pass
    takes next (Head) has maximal priority among everything queued, and Pop removes exactly it *)
@@ -193,4 +200,20 @@ Example C19_event_nonvacuous :
   event_wait_setmode_req 3 ws /\ event_wait_clearmode_req 3 wc /\
   snd (try_lock cleared ws) = Refused /\ snd (try_lock [] ws) = Granted /\
   snd (try_lock [] wc) = Refused /\ snd (try_lock set wc) = Granted.
+Proof. cbv zeta. repeat split. Qed.
+
+(* Event.Wait of a default-clear event served by a wake-up pass (wakeUpWaitLocks = doLock only).  With the source as it is
+   (switch false) a queued Wait is granted on a FREE key — "Wait returns only once the event is set" is refuted, replayed on
+   the real server (signature monitor:event:wait-returned-while-clear:default-clear); if the pass re-checks the
+   wait-when-unlock flag (switch true) a granted Wait implies a held key. *)
+Theorem C19_event_wait_wake_pass : forall t r, event_wait_clearmode_req t r ->
+  (wake_pass_rechecks_wait_when_unlock = false -> wake_grant [] r = true) /\
+  (wake_pass_rechecks_wait_when_unlock = true -> forall s, wake_grant s r = true -> locked s <> 0).
+Proof. exact event_wait_wake_pass. Qed.
+Goal True. idtac "ASSUMPTIONS-OF C19_event_wait_wake_pass". Abort.
+Print Assumptions C19_event_wait_wake_pass.
+Example C19_event_wait_wake_pass_nonvacuous :
+  let wc := mkReq 51 event_clearmode_wait_count event_clearmode_wait_rcount false true (wait_unlock_flag_of (event_clearmode_wait_timeout 3)) false in
+  event_wait_clearmode_req 3 wc /\
+  wake_grant [mkHold 77 1 event_clearmode_eventlock_count event_clearmode_eventlock_rcount] wc = true.
 Proof. cbv zeta. repeat split. Qed.
